@@ -12,7 +12,7 @@ from . import common
 
 
 def run(P: Program, rep: Report):
-    sf.sm.configure(P)
+    product_ok = sf.guard(rep, "C01.R2", lambda: (sf.sm.configure(P), True)[1], "role discovery in the splitter") is not None
     rep.not_decided += ["absence of implicit exceptions outside the enumerated sources", "memory limits"]
     rep.assume("re match offsets, copy.deepcopy and dict/list semantics of CPython are correct")
 
@@ -39,59 +39,64 @@ def run(P: Program, rep: Report):
                  f"recursive call cycle reachable from the entry points: {' -> '.join(names)} "
                  f"(stack depth grows with the input; e.g. one frame per newline / block)")
 
-    # ---------------------------------------------------------------- R2 nullness of marks / EOF protocol
-    rep.rule("C01.R2", "_next_mark returns None only at end of input with accept_eof=True, otherwise raises BlockAbortedException "
-                       "ending at the text length; it never returns a newline mark (abstract run of its body over "
-                       "pending/iterator scenarios)")
-    issues, scen = sf.check_next_mark(P)
-    rep.require_count("C01.R2", "_next_mark scenarios", len(scen), 12)
-    fi = P.func("splitter", f"Splitter.{sf.sm.M_NEXT_MARK}")
-    eofish = [i for i in issues if any(w in i["message"] for w in ("end of input", "End of input", "raise", "None", "analyser", "end-of-input"))]
-    for s in scen:
-        if not any(i["scenario"] in s for i in eofish):
-            rep.ok("C01.R2", "next_mark:" + s, fi.loc, nontrivial=True)
-    for i in eofish:
-        rep.fail("C01.R2", "next_mark:" + i["message"][:70], f"{fi.module.relpath}:{getattr(i['node'], 'lineno', fi.node.lineno)}",
-                 f"{i['message']} [{i['scenario']}]")
+    def product_rules():
+        # ---------------------------------------------------------------- R2 nullness of marks / EOF protocol
+        rep.rule("C01.R2", "_next_mark returns None only at end of input with accept_eof=True, otherwise raises BlockAbortedException "
+                           "ending at the text length; it never returns a newline mark (abstract run of its body over "
+                           "pending/iterator scenarios)")
+        issues, scen = sf.check_next_mark(P)
+        rep.require_count("C01.R2", "_next_mark scenarios", len(scen), 12)
+        fi = P.func("splitter", f"Splitter.{sf.sm.M_NEXT_MARK}")
+        eofish = [i for i in issues if any(w in i["message"] for w in ("end of input", "End of input", "raise", "None", "analyser", "end-of-input"))]
+        for s in scen:
+            if not any(i["scenario"] in s for i in eofish):
+                rep.ok("C01.R2", "next_mark:" + s, fi.loc, nontrivial=True)
+        for i in eofish:
+            rep.fail("C01.R2", "next_mark:" + i["message"][:70], f"{fi.module.relpath}:{getattr(i['node'], 'lineno', fi.node.lineno)}",
+                     f"{i['message']} [{i['scenario']}]")
 
-    # ---------------------------------------------------------------- R3 / R8 product: nothing escapes, progress
-    rep.rule("C01.R3", "no exception escapes Splitter.split on any mark sequence; every abort becomes a failed block that "
-                       "carries its error and raw text; every loop iteration consumes a mark. " + sf.PRODUCT_RULE_TEXT)
-    sf.report_product(rep, P, "C01.R3", ["exception", "progress"], "split() never raises / always progresses")
+        # ---------------------------------------------------------------- R3 / R8 product: nothing escapes, progress
+        rep.rule("C01.R3", "no exception escapes Splitter.split on any mark sequence; every abort becomes a failed block that "
+                           "carries its error and raw text; every loop iteration consumes a mark. " + sf.PRODUCT_RULE_TEXT)
+        sf.report_product(rep, P, "C01.R3", ["exception", "progress"], "split() never raises / always progresses")
 
-    # ---------------------------------------------------------------- R4 regex guarantees behind the 'internal error' raises
-    rep.rule("C01.R4", "mark regex: the block-start alternative begins with '@', cannot consume a backslash, ends in a look-ahead "
-                       "for '{', and '{' is an unescaped one-character mark - hence the mark after a block start is its '{' and "
-                       "the internal-error raises are infeasible; no alternative is nullable; star height <= 1")
-    rx = find_mark_regex(P)
-    singles = rx.single_char_marks()
-    others = rx.other_alts()
-    bs = [a for a in others if a.first() is not None and a.first().is_finite() and a.first().chars == {"@"}]
-    if len(bs) != 1:
-        raise AnalysisError(f"C01.R4: expected exactly one block-start alternative in the mark regex, found {len(bs)}: {rx.alts}")
-    a = bs[0]
-    c = "regex:block-start"
-    rep.check(len(a.ahead) == 1 and a.ahead[0].is_finite() and a.ahead[0].chars == {"{"}, "C01.R4", c + ":lookahead", rx.loc,
-              "block-start alternative does not end in a look-ahead for '{': the mark after '@type' need not be '{'")
-    rep.check(not any(i.cs.may_contain("\\") for i in a.items), "C01.R4", c + ":no-backslash", rx.loc,
-              "block-start alternative can consume a backslash: the following '{' could be escaped and not be a mark")
-    rep.check(not any(i.cs.may_contain(ch) for i in a.items[1:] for ch in "{}\",=\n"), "C01.R4", c + ":no-mark-chars", rx.loc,
-              "block-start alternative can consume a mark character")
-    rep.check("{" in singles and all(not al.ahead and not al.not_ahead and not al.before for al in singles["{"]), "C01.R4", "regex:open-brace-mark", rx.loc,
-              "'{' is not an unconditional (unescaped) one-character mark")
-    for i, al in enumerate(rx.alts):
-        rep.check(not al.nullable() and not al.opaque and al.star_height <= 1, "C01.R4", f"regex:alt{i}:shape", rx.loc,
-                  f"alternative {al!r} is nullable, has nested repetition or an unsupported construct")
-    # the internal-error raises must exist only behind a test of the first mark after the block start
-    spl = P.cls("splitter", "Splitter")
-    n_internal = 0
-    for f in spl.methods.values():
-        for n in own_nodes(f.node):
-            if isinstance(n, ast.Raise) and n.exc is not None and isinstance(n.exc, ast.Call):
-                nm = ast.unparse(n.exc.func)
-                if nm in ("ParserStateException", "RegexMismatchException"):
-                    n_internal += 1
-    rep.count("internal_error_raise_sites", n_internal)
+        # ---------------------------------------------------------------- R4 regex guarantees behind the 'internal error' raises
+        rep.rule("C01.R4", "mark regex: the block-start alternative begins with '@', cannot consume a backslash, ends in a look-ahead "
+                           "for '{', and '{' is an unescaped one-character mark - hence the mark after a block start is its '{' and "
+                           "the internal-error raises are infeasible; no alternative is nullable; star height <= 1")
+        rx = find_mark_regex(P)
+        singles = rx.single_char_marks()
+        others = rx.other_alts()
+        bs = [a for a in others if a.first() is not None and a.first().is_finite() and a.first().chars == {"@"}]
+        if len(bs) != 1:
+            raise AnalysisError(f"C01.R4: expected exactly one block-start alternative in the mark regex, found {len(bs)}: {rx.alts}")
+        a = bs[0]
+        c = "regex:block-start"
+        rep.check(len(a.ahead) == 1 and a.ahead[0].is_finite() and a.ahead[0].chars == {"{"}, "C01.R4", c + ":lookahead", rx.loc,
+                  "block-start alternative does not end in a look-ahead for '{': the mark after '@type' need not be '{'")
+        rep.check(not any(i.cs.may_contain("\\") for i in a.items), "C01.R4", c + ":no-backslash", rx.loc,
+                  "block-start alternative can consume a backslash: the following '{' could be escaped and not be a mark")
+        rep.check(not any(i.cs.may_contain(ch) for i in a.items[1:] for ch in "{}\",=\n"), "C01.R4", c + ":no-mark-chars", rx.loc,
+                  "block-start alternative can consume a mark character")
+        rep.check("{" in singles and all(not al.ahead and not al.not_ahead and not al.before for al in singles["{"]), "C01.R4", "regex:open-brace-mark", rx.loc,
+                  "'{' is not an unconditional (unescaped) one-character mark")
+        for i, al in enumerate(rx.alts):
+            rep.check(not al.nullable() and not al.opaque and al.star_height <= 1, "C01.R4", f"regex:alt{i}:shape", rx.loc,
+                      f"alternative {al!r} is nullable, has nested repetition or an unsupported construct")
+        # the internal-error raises must exist only behind a test of the first mark after the block start
+        spl = P.cls("splitter", "Splitter")
+        n_internal = 0
+        for f in spl.methods.values():
+            for n in own_nodes(f.node):
+                if isinstance(n, ast.Raise) and n.exc is not None and isinstance(n.exc, ast.Call):
+                    nm = ast.unparse(n.exc.func)
+                    if nm in ("ParserStateException", "RegexMismatchException"):
+                        n_internal += 1
+        rep.count("internal_error_raise_sites", n_internal)
+
+
+    if product_ok:
+        sf.guard(rep, "C01.R3", product_rules)
 
     # ---------------------------------------------------------------- R5 writer exhaustiveness
     rep.rule("C01.R5", "every concrete Block subclass is written by write() without an exception and in its own form: the text of a "
